@@ -24,7 +24,15 @@ def nt_classes(tree: ast.Module) -> Dict[str, List[Tuple[str, Optional[ast.expr]
     for st in tree.body:
         if isinstance(st, ast.ClassDef):
             bases = [ast.unparse(b).split('.')[-1] for b in st.bases]
-            if 'NamedTuple' in bases and len(bases) == 1 and not st.keywords:
+            # a frozen dataclass of plain fields is a record too (read through its attributes only; never unpacked)
+            frozen_dc = False
+            if not bases and not st.keywords and len(st.decorator_list) == 1:
+                d = st.decorator_list[0]
+                if isinstance(d, ast.Call) and ast.unparse(d.func).split('.')[-1] == 'dataclass' and not d.args \
+                        and any(k.arg == 'frozen' and isinstance(k.value, ast.Constant) and k.value.value is True for k in d.keywords) \
+                        and all(k.arg in ('frozen', 'slots', 'eq', 'repr', 'order') for k in d.keywords):
+                    frozen_dc = True
+            if ('NamedTuple' in bases and len(bases) == 1 and not st.keywords) or frozen_dc:
                 fields: List[Tuple[str, Optional[ast.expr]]] = []
                 plain = True
                 for b in st.body:
@@ -1602,6 +1610,24 @@ def inline_exception_tuples(tree: ast.Module) -> int:
                 ast.copy_location(y, h.type)
             h.type = new
             n_ += 1
+    # a local of a function bound once (in the whole module, outside loops) to such a tuple, hoisted out of a loop by hand
+    # (`flush_on = (TimeoutError, CancelledError)` ... `except flush_on:`): the handlers inside that function
+    for fn in [x for x in ast.walk(tree) if isinstance(x, _FN)]:
+        lconsts: Dict[str, ast.Tuple] = {}
+        for st in _own(fn):
+            if isinstance(st, ast.Assign) and len(st.targets) == 1 and isinstance(st.targets[0], ast.Name) and isinstance(st.value, ast.Tuple) \
+                    and st.value.elts and all(isinstance(e, (ast.Name, ast.Attribute)) for e in st.value.elts) \
+                    and counts.get(st.targets[0].id, 0) == 1 and not _in_loop(fn, st):
+                lconsts[st.targets[0].id] = st.value
+        if not lconsts:
+            continue
+        for h in ast.walk(fn):
+            if isinstance(h, ast.ExceptHandler) and isinstance(h.type, ast.Name) and h.type.id in lconsts:
+                new = _clone_expr(lconsts[h.type.id])
+                for y in ast.walk(new):
+                    ast.copy_location(y, h.type)
+                h.type = new
+                n_ += 1
     return n_
 
 
@@ -2008,3 +2034,878 @@ def inline_module_partials(tree: ast.Module) -> int:
                     ast.copy_location(y, c)
             n_ += 1
     return n_
+
+
+# ---------------------------------------------------------------------------
+# match statements  ->  if / elif chains
+# ---------------------------------------------------------------------------
+
+class _NoMatchDesugar(Exception):
+    pass
+
+
+#: synthetic match temporaries whose value is evidently a bool (comparison, not, predicate call)
+_BOOL_TEMPS: Set[str] = set()
+_PREDICATES = {'done', 'cancelled', 'empty', 'full', 'locked', 'closed', 'exists', 'startswith', 'endswith', 'isidentifier', 'isdigit'}
+
+
+def _evidently_bool(e: ast.expr) -> bool:
+    if isinstance(e, ast.Compare):
+        return True
+    if isinstance(e, ast.UnaryOp) and isinstance(e.op, ast.Not):
+        return True
+    if isinstance(e, ast.BoolOp):
+        return all(_evidently_bool(v) for v in e.values)
+    if isinstance(e, ast.Constant):
+        return isinstance(e.value, bool)
+    if isinstance(e, ast.Call):
+        f = e.func
+        if isinstance(f, ast.Name):
+            return f.id in ('isinstance', 'issubclass', 'callable', 'hasattr', 'bool', 'any', 'all')
+        if isinstance(f, ast.Attribute):
+            return f.attr.startswith(('is_', 'has_', 'is')) and (f.attr.startswith(('is_', 'has_')) or f.attr in _PREDICATES) or f.attr in _PREDICATES
+    return False
+
+
+_SELF_MATCH_BUILTINS = {'bool', 'bytearray', 'bytes', 'dict', 'float', 'frozenset', 'int', 'list', 'set', 'str', 'tuple'}
+
+
+def _pattern(pat: ast.pattern, subj: ast.expr, hint=None):
+    """(test expression or None when the pattern cannot fail, [(name, value expression)] it binds).  *hint* = (n, nullable)
+    says that the subject is known to be a tuple of n items (or None, when nullable): a value read from a table that only
+    ever receives n-tuples."""
+    import copy
+
+    def S():
+        return copy.deepcopy(subj)
+    if isinstance(pat, ast.MatchValue):
+        return ast.Compare(left=S(), ops=[ast.Eq()], comparators=[pat.value]), []
+    if isinstance(pat, ast.MatchSingleton):
+        if isinstance(pat.value, bool) and isinstance(subj, ast.Name) and subj.id in _BOOL_TEMPS:
+            # the subject is a synthetic local holding an evidently boolean value: `is True` is the value itself
+            return (S() if pat.value else ast.UnaryOp(op=ast.Not(), operand=S())), []
+        return ast.Compare(left=S(), ops=[ast.Is()], comparators=[ast.Constant(value=pat.value)]), []
+    if isinstance(pat, ast.MatchAs):
+        if pat.pattern is None:
+            return None, ([(pat.name, S())] if pat.name else [])
+        t, b = _pattern(pat.pattern, subj, hint)
+        return t, b + [(pat.name, S())]
+    if isinstance(pat, ast.MatchOr):
+        tests = []
+        for q in pat.patterns:
+            t, b = _pattern(q, subj, hint)
+            if b:
+                raise _NoMatchDesugar('capture inside an or-pattern')
+            if t is None:
+                return None, []
+            tests.append(t)
+        return ast.BoolOp(op=ast.Or(), values=tests), []
+    if isinstance(pat, ast.MatchSequence):
+        if any(isinstance(q, ast.MatchStar) for q in pat.patterns):
+            raise _NoMatchDesugar('star pattern')
+        n = len(pat.patterns)
+        tests, binds = [], []
+        if isinstance(subj, (ast.Tuple, ast.List)) and len(subj.elts) == n and not any(isinstance(e, ast.Starred) for e in subj.elts):
+            parts = list(subj.elts)
+        elif isinstance(subj, (ast.Tuple, ast.List)):
+            return ast.Constant(value=False), []
+        elif hint is not None and hint[0] == n:
+            if hint[1]:
+                tests.append(ast.Compare(left=S(), ops=[ast.IsNot()], comparators=[ast.Constant(value=None)]))
+            parts = [ast.Subscript(value=S(), slice=ast.Constant(value=i), ctx=ast.Load()) for i in range(n)]
+        else:
+            tests.append(ast.Call(func=ast.Name(id='isinstance', ctx=ast.Load()),
+                                  args=[S(), ast.Tuple(elts=[ast.Name(id='tuple', ctx=ast.Load()), ast.Name(id='list', ctx=ast.Load())], ctx=ast.Load())],
+                                  keywords=[]))
+            tests.append(ast.Compare(left=ast.Call(func=ast.Name(id='len', ctx=ast.Load()), args=[S()], keywords=[]), ops=[ast.Eq()],
+                                     comparators=[ast.Constant(value=n)]))
+            parts = [ast.Subscript(value=S(), slice=ast.Constant(value=i), ctx=ast.Load()) for i in range(n)]
+        for q, part in zip(pat.patterns, parts):
+            t, b = _pattern(q, part)
+            if t is not None:
+                tests.append(t)
+            binds += b
+        if not tests:
+            return None, binds
+        return (tests[0] if len(tests) == 1 else ast.BoolOp(op=ast.And(), values=tests)), binds
+    if isinstance(pat, ast.MatchClass):
+        tests = [ast.Call(func=ast.Name(id='isinstance', ctx=ast.Load()), args=[S(), pat.cls], keywords=[])]
+        binds = []
+        if pat.patterns:
+            if not (len(pat.patterns) == 1 and isinstance(pat.cls, ast.Name) and pat.cls.id in _SELF_MATCH_BUILTINS):
+                raise _NoMatchDesugar('positional class pattern')
+            t, b = _pattern(pat.patterns[0], subj)
+            if t is not None:
+                tests.append(t)
+            binds += b
+        for attr, q in zip(pat.kwd_attrs, pat.kwd_patterns):
+            t, b = _pattern(q, ast.Attribute(value=S(), attr=attr, ctx=ast.Load()))
+            tests.append(ast.Call(func=ast.Name(id='hasattr', ctx=ast.Load()), args=[S(), ast.Constant(value=attr)], keywords=[]))
+            if t is not None:
+                tests.append(t)
+            binds += b
+        return (tests[0] if len(tests) == 1 else ast.BoolOp(op=ast.And(), values=tests)), binds
+    raise _NoMatchDesugar(type(pat).__name__)
+
+
+def desugar_match(tree: ast.Module) -> int:
+    """`match subject: case ...` as the if / elif chain it stands for (literal, singleton, capture, wildcard, or-, sequence- and
+    simple class patterns; guards).  The subject is evaluated once (into a synthetic local when it is not a name, a constant or
+    a display of those).  A match statement with a pattern outside this fragment is left alone (the graph builder then refuses
+    the function: analysis error, never a silent pass)."""
+    count = [0]
+    fresh = [0]
+    _BOOL_TEMPS.clear()
+    # tables (dict-valued names) that only ever receive tuple displays of one arity through subscript stores, and are
+    # filled in no other way
+    arity: Dict[str, Set[int]] = {}
+    opaque: Set[str] = set()
+    for n_ in ast.walk(tree):
+        if isinstance(n_, ast.Assign):
+            for t_ in n_.targets:
+                if isinstance(t_, ast.Subscript) and isinstance(t_.value, ast.Name):
+                    v_ = n_.value
+                    if isinstance(v_, ast.Tuple) and not any(isinstance(e_, ast.Starred) for e_ in v_.elts):
+                        arity.setdefault(t_.value.id, set()).add(len(v_.elts))
+                    else:
+                        opaque.add(t_.value.id)
+        elif isinstance(n_, ast.AugAssign) and isinstance(n_.target, ast.Subscript) and isinstance(n_.target.value, ast.Name):
+            opaque.add(n_.target.value.id)
+        elif isinstance(n_, ast.Call) and isinstance(n_.func, ast.Attribute) and isinstance(n_.func.value, ast.Name) \
+                and n_.func.attr in ('setdefault', 'update', '__setitem__'):
+            opaque.add(n_.func.value.id)
+
+    def table_hint(e):
+        if isinstance(e, ast.Call) and isinstance(e.func, ast.Attribute) and e.func.attr == 'get' and len(e.args) == 1 and not e.keywords \
+                and isinstance(e.func.value, ast.Name):
+            nm, nullable = e.func.value.id, True
+        elif isinstance(e, ast.Subscript) and isinstance(e.value, ast.Name) and not isinstance(e.slice, ast.Slice):
+            nm, nullable = e.value.id, False
+        else:
+            return None
+        if nm in opaque or len(arity.get(nm, ())) != 1:
+            return None
+        return (next(iter(arity[nm])), nullable)
+
+    def simple(e) -> bool:
+        return isinstance(e, (ast.Name, ast.Constant)) or (isinstance(e, (ast.Tuple, ast.List)) and all(simple(x) for x in e.elts))
+
+    class R(ast.NodeTransformer):
+        def __init__(self):
+            self.fn = []
+
+        def visit_FunctionDef(self, node):
+            self.fn.append(node)
+            self.generic_visit(node)
+            self.fn.pop()
+            return node
+        visit_AsyncFunctionDef = visit_FunctionDef
+
+        def visit_Match(self, node: ast.Match):
+            self.generic_visit(node)
+            pre = []
+            subj = node.subject
+            hint = table_hint(subj)
+            def temp(value):
+                fresh[0] += 1
+                nm = f'__match_{fresh[0]}'
+                pre.append(ast.copy_location(ast.Assign(targets=[ast.Name(id=nm, ctx=ast.Store())], value=value), node))
+                if _evidently_bool(value):
+                    _BOOL_TEMPS.add(nm)
+                if self.fn:
+                    self.fn[-1]._added_locals = set(getattr(self.fn[-1], '_added_locals', set())) | {nm}  # type: ignore[attr-defined]
+                return ast.Name(id=nm, ctx=ast.Load())
+            if isinstance(subj, (ast.Tuple, ast.List)) and not simple(subj) and not any(isinstance(e, ast.Starred) for e in subj.elts):
+                # a display of expressions: every component is evaluated once, in order, and matched on its own
+                subj = ast.Tuple(elts=[e if simple(e) else temp(e) for e in subj.elts], ctx=ast.Load())
+            elif not simple(subj):
+                subj = temp(subj)
+            try:
+                arms = []
+                for c in node.cases:
+                    t, b = _pattern(c.pattern, subj, hint)
+                    late_guard = None
+                    if c.guard is not None:
+                        used = {x.id for x in ast.walk(c.guard) if isinstance(x, ast.Name)}
+                        if used & {n_ for n_, _ in b}:
+                            late_guard = c.guard        # the guard reads what the pattern binds: it is tested after the bindings
+                        else:
+                            t = c.guard if t is None else ast.BoolOp(op=ast.And(), values=[t, c.guard])
+                    binds = [ast.Assign(targets=[ast.Name(id=n_, ctx=ast.Store())], value=v_) for n_, v_ in b]
+                    arms.append((t, binds, list(c.body), c, late_guard))
+            except _NoMatchDesugar:
+                return node
+            chain: list = []
+            for t, binds, body, c, lg in reversed(arms):
+                if lg is not None and chain:
+                    # the guard reads the captures and later arms exist: bind inside the test (`... and ((a := s[0]), (b := s[1])) and guard`),
+                    # so that a failing guard falls through to the next arm like any failing test
+                    parts = [] if t is None else [t]
+                    if binds:
+                        parts.append(ast.Tuple(elts=[ast.NamedExpr(target=ast.Name(id=b_.targets[0].id, ctx=ast.Store()), value=b_.value) for b_ in binds], ctx=ast.Load()))
+                    parts.append(lg)
+                    t2 = parts[0] if len(parts) == 1 else ast.BoolOp(op=ast.And(), values=parts)
+                    chain = [ast.copy_location(ast.If(test=t2, body=body, orelse=chain), c.pattern)]
+                    continue
+                inner = binds + ([ast.copy_location(ast.If(test=lg, body=body, orelse=[]), c.pattern)] if lg is not None else body)
+                if t is None:
+                    chain = inner
+                else:
+                    chain = [ast.copy_location(ast.If(test=t, body=inner, orelse=chain), c.pattern)]
+            count[0] += 1
+            out = pre + (chain or [ast.copy_location(ast.Pass(), node)])
+            for st in out:
+                ast.copy_location(st, node) if not hasattr(st, 'lineno') else None
+                ast.fix_missing_locations(st)
+            return out
+    R().visit(tree)
+    ast.fix_missing_locations(tree)
+    return count[0]
+
+
+# ---------------------------------------------------------------------------
+# testability seams: `_sleep = time.sleep` at module / class level, trivial factory methods
+# ---------------------------------------------------------------------------
+
+def _dotted_expr(e: ast.AST) -> Optional[str]:
+    if isinstance(e, ast.Name):
+        return e.id
+    if isinstance(e, ast.Attribute):
+        b = _dotted_expr(e.value)
+        return None if b is None else b + '.' + e.attr
+    return None
+
+
+def inline_seams(tree: ast.Module) -> int:
+    """Indirections that default to a library object are read as that object:
+      * a module-level name bound once to a dotted path rooted at an import (`_sleep = time.sleep`);
+      * a class attribute bound once to `staticmethod(<such a path>)`, or to such a path that names a class or a builtin
+        of a C module (no method binding), read through self / cls / the class name, never assigned anywhere else;
+      * a private method without parameters whose whole body is `return <expression over self and globals>` (a factory
+        such as `def _make_queue(self): return asyncio.Queue()`), not overridden in the module: its call is that expression.
+    The analysis then sees the default wiring - which is what the properties are about."""
+    imported: Set[str] = set()
+    for st in tree.body:
+        stmts = [st]
+        if isinstance(st, ast.Try):
+            stmts = list(st.body) + [x for h in st.handlers for x in h.body]
+        elif isinstance(st, ast.If):
+            stmts = list(st.body) + list(st.orelse)
+        for s2 in stmts:
+            if isinstance(s2, ast.Import):
+                imported |= {(al.asname or al.name).split('.')[0] for al in s2.names}
+            elif isinstance(s2, ast.ImportFrom):
+                imported |= {al.asname or al.name for al in s2.names}
+    single = _module_single_names(tree)
+    count = [0]
+
+    mod_alias: Dict[str, ast.AST] = {}
+
+    def lib_path(v: ast.AST) -> bool:
+        d = _dotted_expr(v)
+        if d is None:
+            return False
+        head = d.split('.')[0]
+        return head in single and (head in imported or head in mod_alias)
+
+    # 1. module-level aliases (an alias of an alias included: `run_coro_ts = aio.run_coroutine_threadsafe`, `_submit = run_coro_ts`)
+    for st in tree.body:
+        if isinstance(st, ast.Assign) and len(st.targets) == 1 and isinstance(st.targets[0], ast.Name) \
+                and st.targets[0].id in single and lib_path(st.value) and not st.targets[0].id.startswith('__'):
+            v = st.value
+            d = _dotted_expr(v) or ''
+            if d.split('.')[0] in mod_alias:
+                # expand the head through the earlier alias
+                base = _clone_expr(mod_alias[d.split('.')[0]])
+                for part in d.split('.')[1:]:
+                    base = ast.Attribute(value=base, attr=part, ctx=ast.Load())
+                v = ast.copy_location(base, st.value)
+                ast.fix_missing_locations(v)
+            mod_alias[st.targets[0].id] = v
+    if mod_alias:
+        # a function that binds the name locally sees its own variable
+        def rewrite(node: ast.AST, shadow: Set[str]) -> None:
+            for fld, val in ast.iter_fields(node):
+                items = val if isinstance(val, list) else [val]
+                for i, ch in enumerate(items):
+                    if not isinstance(ch, ast.AST):
+                        continue
+                    if isinstance(ch, _FN + (ast.Lambda,)):
+                        if isinstance(ch, ast.Lambda):
+                            a = ch.args
+                            sh = {p.arg for p in a.posonlyargs + a.args + a.kwonlyargs + ([a.vararg] if a.vararg else []) + ([a.kwarg] if a.kwarg else [])}
+                        else:
+                            sh = set(_bound_names(ch))
+                        rewrite(ch, shadow | sh)
+                        continue
+                    if isinstance(ch, ast.Name) and isinstance(ch.ctx, ast.Load) and ch.id in mod_alias and ch.id not in shadow:
+                        new = _clone_expr(mod_alias[ch.id])
+                        for y in ast.walk(new):
+                            ast.copy_location(y, ch)
+                        if isinstance(val, list):
+                            val[i] = new
+                        else:
+                            setattr(node, fld, new)
+                        count[0] += 1
+                        continue
+                    rewrite(ch, shadow)
+        rewrite(tree, set())
+    # 2. / 3. class-level seams and trivial factories
+    stored_attrs: Set[str] = {x.attr for x in ast.walk(tree) if isinstance(x, ast.Attribute) and isinstance(x.ctx, (ast.Store, ast.Del))}
+    classes = [c for c in ast.walk(tree) if isinstance(c, ast.ClassDef)]
+    defined: Dict[str, int] = {}
+    for c in classes:
+        for st in c.body:
+            if isinstance(st, _FN):
+                defined[st.name] = defined.get(st.name, 0) + 1
+            elif isinstance(st, ast.Assign):
+                for t in st.targets:
+                    if isinstance(t, ast.Name):
+                        defined[t.id] = defined.get(t.id, 0) + 1
+            elif isinstance(st, ast.AnnAssign) and isinstance(st.target, ast.Name):
+                defined[st.target.id] = defined.get(st.target.id, 0) + 1
+    _C_MODULES = {'time', 'os', 'fcntl', 'msvcrt', '_thread', 'sys', 'math'}
+    for c in classes:
+        seams: Dict[str, ast.AST] = {}
+        factories: Dict[str, ast.AST] = {}
+        for st in c.body:
+            if isinstance(st, ast.Assign) and len(st.targets) == 1 and isinstance(st.targets[0], ast.Name):
+                nm, v = st.targets[0].id, st.value
+                if defined.get(nm) != 1 or nm in stored_attrs or nm.startswith('__'):
+                    continue
+                if isinstance(v, ast.Call) and isinstance(v.func, ast.Name) and v.func.id == 'staticmethod' and len(v.args) == 1 \
+                        and not v.keywords and lib_path(v.args[0]):
+                    seams[nm] = v.args[0]
+                elif lib_path(v):
+                    d = _dotted_expr(v) or ''
+                    if d.split('.')[-1][:1].isupper() or d.split('.')[0] in _C_MODULES:
+                        seams[nm] = v
+            elif isinstance(st, ast.FunctionDef) and st.name.startswith('_') and not st.name.startswith('__') and not st.decorator_list \
+                    and defined.get(st.name) == 1 and st.name not in stored_attrs:
+                a = st.args
+                body = [x for x in st.body if not (isinstance(x, ast.Expr) and isinstance(x.value, ast.Constant))]
+                if len(a.args) == 1 and not (a.posonlyargs or a.kwonlyargs or a.vararg or a.kwarg) and len(body) == 1 \
+                        and isinstance(body[0], ast.Return) and body[0].value is not None:
+                    rv = body[0].value
+                    selfn = a.args[0].arg
+                    names = {x.id for x in ast.walk(rv) if isinstance(x, ast.Name)}
+                    if isinstance(rv, ast.Call) and not any(isinstance(x, (ast.Await, ast.Yield, ast.YieldFrom, ast.Lambda, ast.NamedExpr)) for x in ast.walk(rv)) \
+                            and lib_path(rv.func) and names <= ({selfn} | imported | set(dir(__import__('builtins')))):
+                        factories[st.name] = (rv, selfn)
+        if not seams and not factories:
+            continue
+        for m in [x for x in ast.walk(c) if isinstance(x, _FN)]:
+            if not m.args.args:
+                continue
+            recv = {m.args.args[0].arg, c.name} if m in c.body else {c.name, 'self', 'cls'}
+
+            class R(ast.NodeTransformer):
+                def visit_Call(self, n: ast.Call):
+                    self.generic_visit(n)
+                    f = n.func
+                    if isinstance(f, ast.Attribute) and isinstance(f.value, ast.Name) and f.value.id in recv and f.attr in factories \
+                            and not n.args and not n.keywords:
+                        rv, selfn = factories[f.attr]
+                        new = _clone_expr(rv)
+                        for y in ast.walk(new):
+                            if isinstance(y, ast.Name) and y.id == selfn:
+                                y.id = f.value.id
+                            ast.copy_location(y, n)
+                        count[0] += 1
+                        return new
+                    return n
+
+                def visit_Attribute(self, n: ast.Attribute):
+                    self.generic_visit(n)
+                    if isinstance(n.ctx, ast.Load) and isinstance(n.value, ast.Name) and n.value.id in recv and n.attr in seams:
+                        new = _clone_expr(seams[n.attr])
+                        for y in ast.walk(new):
+                            ast.copy_location(y, n)
+                        count[0] += 1
+                        return new
+                    return n
+            R().visit(m)
+    if count[0]:
+        ast.fix_missing_locations(tree)
+    return count[0]
+
+
+# ---------------------------------------------------------------------------
+# two-valued state locals  ->  booleans
+# ---------------------------------------------------------------------------
+
+def two_valued_locals_to_bools(tree: ast.Module) -> int:
+    """A local that is only ever assigned one of two distinct constant-like values (literals, or dotted names such as
+    `_Role.OWNER`) and only ever read in an (in)equality / identity comparison with one of the two is a boolean in
+    disguise: `role = _Role.OWNER` ... `if role is _Role.OWNER` reads `role = True` ... `if role`.  The path queries
+    track booleans."""
+    count = 0
+    set_alias_parents(tree)
+
+    def const_key(v: ast.AST) -> Optional[str]:
+        if isinstance(v, ast.Constant) and isinstance(v.value, (str, int)) and not isinstance(v.value, bool):
+            return repr(v.value)
+        d = _dotted_expr(v)
+        if d is not None and '.' in d and d.split('.')[-1].isupper():
+            return d
+        return None
+    def leaves(v: ast.AST) -> List[str]:
+        """constant keys of a value that is a constant or a conditional expression over constants; [] otherwise"""
+        if isinstance(v, ast.IfExp):
+            a, b = leaves(v.body), leaves(v.orelse)
+            return a + b if a and b else []
+        k = const_key(v)
+        return [k] if k else []
+    for fn in [n for n in ast.walk(tree) if isinstance(n, _FN)]:
+        own = list(_own(fn))
+        nested_names = {x.id for n in ast.walk(fn) if n is not fn and isinstance(n, _FN + (ast.Lambda,)) for x in ast.walk(n) if isinstance(x, ast.Name)}
+        params = {a.arg for a in fn.args.posonlyargs + fn.args.args + fn.args.kwonlyargs} | \
+            ({fn.args.vararg.arg} if fn.args.vararg else set()) | ({fn.args.kwarg.arg} if fn.args.kwarg else set())
+        stores: Dict[str, List[ast.Assign]] = {}
+        bad: Set[str] = set(params) | nested_names
+        for n in own:
+            if isinstance(n, ast.Name) and isinstance(n.ctx, (ast.Store, ast.Del)):
+                p = getattr(n, '_alias_parent', None)
+                if isinstance(n.ctx, ast.Store) and isinstance(p, ast.Assign) and len(p.targets) == 1 and p.targets[0] is n and leaves(p.value):
+                    stores.setdefault(n.id, []).append(p)
+                elif isinstance(n.ctx, ast.Store) and isinstance(p, ast.AnnAssign) and p.target is n and p.value is not None and leaves(p.value):
+                    stores.setdefault(n.id, []).append(p)
+                else:
+                    bad.add(n.id)
+            elif isinstance(n, (ast.Global, ast.Nonlocal)):
+                bad |= set(n.names)
+        for nm, sts in stores.items():
+            if nm in bad:
+                continue
+            keys = []
+            for st in sts:
+                for k in leaves(st.value):
+                    if k not in keys:
+                        keys.append(k)
+            if len(keys) != 2:
+                continue
+            loads = [n for n in own if isinstance(n, ast.Name) and n.id == nm and isinstance(n.ctx, ast.Load)]
+            plan = []
+            ok = True
+            for ld in loads:
+                p = getattr(ld, '_alias_parent', None)
+                if not (isinstance(p, ast.Compare) and len(p.ops) == 1 and isinstance(p.ops[0], (ast.Eq, ast.NotEq, ast.Is, ast.IsNot))):
+                    ok = False
+                    break
+                other = p.comparators[0] if p.left is ld else p.left
+                k = const_key(other)
+                if k not in keys:
+                    ok = False
+                    break
+                positive = isinstance(p.ops[0], (ast.Eq, ast.Is)) == (k == keys[0])
+                plan.append((p, ld, positive))
+            if not ok or not loads:
+                continue
+            def as_bool(v):
+                if isinstance(v, ast.IfExp):
+                    b_, o_ = as_bool(v.body), as_bool(v.orelse)
+                    if isinstance(b_, ast.Constant) and isinstance(o_, ast.Constant) and b_.value is not o_.value:
+                        # `A if c else B`: the truth value of c (or of its negation) - every read is a truth test
+                        return v.test if b_.value else ast.copy_location(ast.UnaryOp(op=ast.Not(), operand=v.test), v)
+                    return ast.copy_location(ast.IfExp(test=v.test, body=b_, orelse=o_), v)
+                return ast.copy_location(ast.Constant(value=(const_key(v) == keys[0])), v)
+            for st in sts:
+                st.value = as_bool(st.value)
+            for p, ld, positive in plan:
+                new: ast.expr = ast.copy_location(ast.Name(id=nm, ctx=ast.Load()), p)
+                if not positive:
+                    new = ast.copy_location(ast.UnaryOp(op=ast.Not(), operand=new), p)
+                _replace_child(getattr(p, '_alias_parent', None), p, new)
+            count += 1
+    if count:
+        ast.fix_missing_locations(tree)
+    return count
+
+
+def _replace_child(par: Optional[ast.AST], old: ast.AST, new: ast.AST) -> None:
+    if par is None:
+        return
+    for fld, val in ast.iter_fields(par):
+        if val is old:
+            setattr(par, fld, new)
+            new._alias_parent = par  # type: ignore[attr-defined]
+            return
+        if isinstance(val, list):
+            for i, x in enumerate(val):
+                if x is old:
+                    val[i] = new
+                    new._alias_parent = par  # type: ignore[attr-defined]
+                    return
+
+
+def assertion_raises_to_asserts(tree: ast.Module) -> int:
+    """`if T: raise AssertionError(...)` (nothing else in the body, no else) is what `assert not T, ...` expands to."""
+    count = [0]
+
+    class R(ast.NodeTransformer):
+        def visit_If(self, node: ast.If):
+            self.generic_visit(node)
+            if not node.orelse and len(node.body) == 1 and isinstance(node.body[0], ast.Raise) and node.body[0].cause is None:
+                exc = node.body[0].exc
+                f = exc.func if isinstance(exc, ast.Call) else exc
+                if isinstance(f, ast.Name) and f.id == 'AssertionError':
+                    msg = exc.args[0] if isinstance(exc, ast.Call) and len(exc.args) == 1 and not exc.keywords else None
+                    t = node.test
+                    neg = t.operand if isinstance(t, ast.UnaryOp) and isinstance(t.op, ast.Not) else ast.copy_location(ast.UnaryOp(op=ast.Not(), operand=t), t)
+                    count[0] += 1
+                    return ast.copy_location(ast.Assert(test=neg, msg=msg), node)
+            return node
+    R().visit(tree)
+    if count[0]:
+        ast.fix_missing_locations(tree)
+    return count[0]
+
+
+def split_chain_assignments(tree: ast.Module) -> int:
+    """`self.a = x = V` -> `self.a = V; x = self.a` and `a = b = V` -> `a = V; b = a` (targets that are plain names or
+    attributes of a name; the value is evaluated once either way).  A subscript target keeps the statement as it is."""
+    count = [0]
+
+    class R(ast.NodeTransformer):
+        def visit_Assign(self, node: ast.Assign):
+            self.generic_visit(node)
+            if len(node.targets) < 2:
+                return node
+            def simple(t):
+                return isinstance(t, ast.Name) or (isinstance(t, ast.Attribute) and isinstance(t.value, ast.Name))
+            if not all(simple(t) for t in node.targets):
+                return node
+            # the attribute (if any) receives the value, the names read it back from there
+            first = next((t for t in node.targets if isinstance(t, ast.Attribute)), node.targets[0])
+            rest = [t for t in node.targets if t is not first]
+            if any(isinstance(t, ast.Attribute) for t in rest):
+                return node
+            out = [ast.copy_location(ast.Assign(targets=[first], value=node.value), node)]
+            src = _clone_expr(first)
+            for y in ast.walk(src):
+                if hasattr(y, 'ctx'):
+                    y.ctx = ast.Load()
+            for t in rest:
+                out.append(ast.copy_location(ast.Assign(targets=[t], value=_clone_expr(src)), node))
+            count[0] += 1
+            return out
+    R().visit(tree)
+    if count[0]:
+        ast.fix_missing_locations(tree)
+    return count[0]
+
+
+def inline_trivial_methods(tree: ast.Module) -> int:
+    """A private, synchronous method whose whole body is one expression - `return E` or the statement `E` - is a name for
+    that expression: `self._spawn_daemon(coro, name)` with `def _spawn_daemon(self, coro, name): return DaemonTask(coro,
+    loop=self.loop, name=name)` reads `DaemonTask(coro, loop=self.loop, name=name)`.  Only when the method is defined once
+    in the module under that name, never used other than called through self, every parameter is used at most once in E
+    (or the argument is a plain name / attribute path / constant), and E has no await, yield, lambda or comprehension."""
+    count = [0]
+    classes = [c for c in ast.walk(tree) if isinstance(c, ast.ClassDef)]
+    defined: Dict[str, int] = {}
+    for c in classes:
+        for st in c.body:
+            if isinstance(st, _FN):
+                defined[st.name] = defined.get(st.name, 0) + 1
+    stored_attrs: Set[str] = {x.attr for x in ast.walk(tree) if isinstance(x, ast.Attribute) and isinstance(x.ctx, (ast.Store, ast.Del))}
+    set_alias_parents(tree)
+    # uses of `<name>.attr` that are not the callee of a call
+    loose: Set[str] = set()
+    for x in ast.walk(tree):
+        if isinstance(x, ast.Attribute) and isinstance(x.ctx, ast.Load):
+            par = getattr(x, '_alias_parent', None)
+            if not (isinstance(par, ast.Call) and par.func is x):
+                loose.add(x.attr)
+
+    def plain(e: ast.AST) -> bool:
+        if isinstance(e, (ast.Name, ast.Constant)):
+            return True
+        if isinstance(e, ast.Attribute):
+            return plain(e.value)
+        return False
+    for c in classes:
+        cands: Dict[str, Tuple[ast.FunctionDef, ast.expr, bool]] = {}
+        for st in c.body:
+            if not (isinstance(st, ast.FunctionDef) and st.name.startswith('_') and not st.name.startswith('__') and not st.decorator_list):
+                continue
+            if defined.get(st.name) != 1 or st.name in stored_attrs or st.name in loose:
+                continue
+            a = st.args
+            if a.posonlyargs or a.kwonlyargs or a.kwarg or a.defaults or not a.args:
+                continue
+            body = [x for x in st.body if not (isinstance(x, ast.Expr) and isinstance(x.value, ast.Constant))]
+            if len(body) != 1:
+                continue
+            if isinstance(body[0], ast.Return) and body[0].value is not None:
+                e, is_ret = body[0].value, True
+            elif isinstance(body[0], ast.Expr):
+                e, is_ret = body[0].value, False
+            else:
+                continue
+            if any(isinstance(x, (ast.Await, ast.Yield, ast.YieldFrom, ast.Lambda, ast.ListComp, ast.SetComp, ast.DictComp, ast.GeneratorExp, ast.NamedExpr))
+                   for x in ast.walk(e)):
+                continue
+            params = [x.arg for x in a.args]
+            names = [x.id for x in ast.walk(e) if isinstance(x, ast.Name)]
+            if any(isinstance(x, ast.Name) and isinstance(x.ctx, (ast.Store, ast.Del)) for x in ast.walk(e)):
+                continue
+            # the vararg may only be splatted once: `*args`
+            if a.vararg:
+                uses = [x for x in ast.walk(e) if isinstance(x, ast.Name) and x.id == a.vararg.arg]
+                if len(uses) != 1 or not isinstance(getattr(uses[0], '_alias_parent', None), ast.Starred):
+                    continue
+            # the method must not call itself
+            if any(isinstance(x, ast.Attribute) and x.attr == st.name for x in ast.walk(e)):
+                continue
+            cands[st.name] = (st, e, is_ret)
+        if not cands:
+            continue
+        for m in [x for x in ast.walk(c) if isinstance(x, _FN)]:
+            if not m.args.args and m in c.body:
+                continue
+
+            class R(ast.NodeTransformer):
+                def visit_Call(self, n: ast.Call):
+                    self.generic_visit(n)
+                    f = n.func
+                    if not (isinstance(f, ast.Attribute) and isinstance(f.value, ast.Name) and f.value.id == 'self' and f.attr in cands):
+                        return n
+                    st, e, is_ret = cands[f.attr]
+                    if st is m:
+                        return n
+                    par = getattr(n, '_alias_parent', None)
+                    if not is_ret and not isinstance(par, ast.Expr):
+                        return n        # the call's value (None) is used: leave it
+                    if n.keywords and any(k.arg is None for k in n.keywords):
+                        return n
+                    params = [x.arg for x in st.args.args][1:]
+                    selfn = st.args.args[0].arg
+                    pos = list(n.args)
+                    if any(isinstance(x, ast.Starred) for x in pos[:len(params)]):
+                        return n
+                    binding: Dict[str, ast.expr] = {}
+                    for p_, a_ in zip(params, pos):
+                        binding[p_] = a_
+                    extra = pos[len(params):]
+                    for k in n.keywords:
+                        if k.arg in binding or k.arg not in params:
+                            return n
+                        binding[k.arg] = k.value
+                    if set(binding) != set(params):
+                        return n
+                    if extra and not st.args.vararg:
+                        return n
+                    for p_ in params:
+                        uses = sum(1 for x in ast.walk(e) if isinstance(x, ast.Name) and x.id == p_)
+                        if uses > 1 and not plain(binding[p_]):
+                            return n
+                        if uses == 0 and not plain(binding[p_]):
+                            return n        # the argument's evaluation would be dropped
+                    new = _clone_expr(e)
+                    set_alias_parents(new)
+
+                    class S(ast.NodeTransformer):
+                        def visit_Starred(self, s_: ast.Starred):
+                            if st.args.vararg and isinstance(s_.value, ast.Name) and s_.value.id == st.args.vararg.arg:
+                                return [_clone_expr(x) for x in extra]
+                            self.generic_visit(s_)
+                            return s_
+
+                        def visit_Name(self, x: ast.Name):
+                            if x.id in binding:
+                                return _clone_expr(binding[x.id])
+                            if x.id == selfn:
+                                return ast.Name(id='self', ctx=ast.Load())
+                            return x
+                    new = S().visit(new)
+                    for y in ast.walk(new):
+                        ast.copy_location(y, n)
+                    count[0] += 1
+                    return new
+            R().visit(m)
+    # `Cls.helper(args)` for a one-expression classmethod / staticmethod of a private class (`_FlushMode.from_cancel(cancel)`)
+    for c in classes:
+        if not c.name.startswith('_'):
+            continue
+        for st in c.body:
+            if not (isinstance(st, ast.FunctionDef) and len(st.decorator_list) == 1 and isinstance(st.decorator_list[0], ast.Name)
+                    and st.decorator_list[0].id in ('classmethod', 'staticmethod')):
+                continue
+            kind = st.decorator_list[0].id
+            a = st.args
+            if a.posonlyargs or a.kwonlyargs or a.kwarg or a.vararg or a.defaults \
+                    or sum(1 for x in c.body if isinstance(x, _FN) and x.name == st.name) != 1 \
+                    or sum(1 for c2 in classes if c2.name == c.name) != 1:
+                continue
+            body = [x for x in st.body if not (isinstance(x, ast.Expr) and isinstance(x.value, ast.Constant))]
+            if len(body) != 1 or not isinstance(body[0], ast.Return) or body[0].value is None:
+                continue
+            e = body[0].value
+            if any(isinstance(x, (ast.Await, ast.Yield, ast.YieldFrom, ast.Lambda, ast.ListComp, ast.SetComp, ast.DictComp, ast.GeneratorExp, ast.NamedExpr))
+                   for x in ast.walk(e)):
+                continue
+            params = [x.arg for x in a.args]
+            clsn = params[0] if kind == 'classmethod' and params else None
+            vparams = params[1:] if kind == 'classmethod' else params
+
+            class RC(ast.NodeTransformer):
+                def visit_Call(self, n: ast.Call):
+                    self.generic_visit(n)
+                    f = n.func
+                    if not (isinstance(f, ast.Attribute) and f.attr == st.name and isinstance(f.value, ast.Name) and f.value.id == c.name):
+                        return n
+                    if n.keywords or len(n.args) != len(vparams) or any(isinstance(x, ast.Starred) for x in n.args):
+                        return n
+                    binding = dict(zip(vparams, n.args))
+                    for p_ in vparams:
+                        uses = sum(1 for x in ast.walk(e) if isinstance(x, ast.Name) and x.id == p_)
+                        if uses != 1 and not plain(binding[p_]):
+                            return n
+                    new = _clone_expr(e)
+
+                    class S(ast.NodeTransformer):
+                        def visit_Name(self, x: ast.Name):
+                            if x.id in binding:
+                                return _clone_expr(binding[x.id])
+                            if clsn is not None and x.id == clsn:
+                                return ast.Name(id=c.name, ctx=ast.Load())
+                            return x
+                    new = S().visit(new)
+                    for y in ast.walk(new):
+                        ast.copy_location(y, n)
+                    count[0] += 1
+                    return new
+            for top in tree.body:
+                if top is not c or True:
+                    RC().visit(top)
+    if count[0]:
+        ast.fix_missing_locations(tree)
+        set_alias_parents(tree)
+    return count[0]
+
+
+def two_valued_properties_to_bools(tree: ast.Module) -> int:
+    """A property that answers with one of two named constants depending on a test (`if self.event.is_set(): return
+    _BufferState.IDLE` / `return _BufferState.PENDING`) and is only ever compared with one of the two is that test:
+    `self._state is _BufferState.PENDING` reads `not self.event.is_set()`."""
+    count = 0
+    set_alias_parents(tree)
+
+    def const_key(v: ast.AST) -> Optional[str]:
+        d = _dotted_expr(v)
+        if d is not None and '.' in d and d.split('.')[-1].isupper():
+            return d
+        if isinstance(v, ast.Constant) and isinstance(v.value, (str, int)) and not isinstance(v.value, bool):
+            return repr(v.value)
+        return None
+    props: Dict[str, Tuple[ast.expr, str, str, str]] = {}
+    defined: Dict[str, int] = {}
+    for c in [x for x in ast.walk(tree) if isinstance(x, ast.ClassDef)]:
+        for st in c.body:
+            if isinstance(st, _FN):
+                defined[st.name] = defined.get(st.name, 0) + 1
+    for c in [x for x in ast.walk(tree) if isinstance(x, ast.ClassDef)]:
+        for st in c.body:
+            if not (isinstance(st, ast.FunctionDef) and len(st.decorator_list) == 1 and _dotted_expr(st.decorator_list[0]) == 'property'
+                    and defined.get(st.name) == 1 and len(st.args.args) == 1):
+                continue
+            body = [x for x in st.body if not (isinstance(x, ast.Expr) and isinstance(x.value, ast.Constant))]
+            t = a = b = None
+            if len(body) == 2 and isinstance(body[0], ast.If) and not body[0].orelse and len(body[0].body) == 1 \
+                    and isinstance(body[0].body[0], ast.Return) and isinstance(body[1], ast.Return):
+                t, a, b = body[0].test, body[0].body[0].value, body[1].value
+            elif len(body) == 1 and isinstance(body[0], ast.If) and len(body[0].body) == 1 and len(body[0].orelse) == 1 \
+                    and isinstance(body[0].body[0], ast.Return) and isinstance(body[0].orelse[0], ast.Return):
+                t, a, b = body[0].test, body[0].body[0].value, body[0].orelse[0].value
+            elif len(body) == 1 and isinstance(body[0], ast.Return) and isinstance(body[0].value, ast.IfExp):
+                t, a, b = body[0].value.test, body[0].value.body, body[0].value.orelse
+            if t is None or a is None or b is None:
+                continue
+            ka, kb = const_key(a), const_key(b)
+            if not ka or not kb or ka == kb:
+                continue
+            if any(isinstance(x, (ast.Await, ast.Yield, ast.YieldFrom, ast.NamedExpr, ast.Lambda)) for x in ast.walk(t)):
+                continue
+            props[st.name] = (t, ka, kb, st.args.args[0].arg)
+    if not props:
+        return 0
+    # every read of `.P` must be one side of a comparison with one of its two constants, through a plain receiver
+    plans: Dict[str, list] = {p_: [] for p_ in props}
+    bad: Set[str] = set()
+    for x in ast.walk(tree):
+        if isinstance(x, ast.Attribute) and x.attr in props:
+            if not isinstance(x.ctx, ast.Load):
+                bad.add(x.attr)
+                continue
+            par = getattr(x, '_alias_parent', None)
+            t, ka, kb, selfn = props[x.attr]
+            if not (isinstance(par, ast.Compare) and len(par.ops) == 1 and isinstance(par.ops[0], (ast.Eq, ast.NotEq, ast.Is, ast.IsNot))
+                    and _dotted_expr(x.value) is not None):
+                bad.add(x.attr)
+                continue
+            other = par.comparators[0] if par.left is x else par.left
+            k = const_key(other)
+            if k not in (ka, kb):
+                bad.add(x.attr)
+                continue
+            positive = isinstance(par.ops[0], (ast.Eq, ast.Is)) == (k == ka)
+            plans[x.attr].append((par, x, positive))
+    for p_, plan in plans.items():
+        if p_ in bad or not plan:
+            continue
+        t, ka, kb, selfn = props[p_]
+        for par, x, positive in plan:
+            new = _clone_expr(t)
+            recv = x.value
+
+            class S(ast.NodeTransformer):
+                def visit_Name(self, n: ast.Name):
+                    if n.id == selfn:
+                        return _clone_expr(recv)
+                    return n
+            new = S().visit(new)
+            if not positive:
+                new = ast.UnaryOp(op=ast.Not(), operand=new)
+            for y in ast.walk(new):
+                ast.copy_location(y, par)
+            _replace_child(getattr(par, '_alias_parent', None), par, new)
+            count += 1
+    if count:
+        ast.fix_missing_locations(tree)
+        set_alias_parents(tree)
+    return count
+
+
+
+def fold_constant_choices(tree: ast.Module) -> int:
+    """`(A if c else B) is A` is `c`, `... is B` is `not c` (A, B distinct named constants / literals; also ==, !=, is not):
+    what is left of `_Outcome.of(result) is _Outcome.FAILURE` once the one-line classmethod has been read in place."""
+    count = [0]
+
+    def key(v: ast.AST) -> Optional[str]:
+        d = _dotted_expr(v)
+        if d is not None and '.' in d and d.split('.')[-1].isupper():
+            return d
+        if isinstance(v, ast.Constant) and isinstance(v.value, (str, int)) and not isinstance(v.value, bool):
+            return repr(v.value)
+        return None
+
+    class R(ast.NodeTransformer):
+        def visit_Compare(self, n: ast.Compare):
+            self.generic_visit(n)
+            if len(n.ops) != 1 or not isinstance(n.ops[0], (ast.Is, ast.IsNot, ast.Eq, ast.NotEq)):
+                return n
+            for x, y in ((n.left, n.comparators[0]), (n.comparators[0], n.left)):
+                if isinstance(x, ast.IfExp):
+                    ka, kb, k = key(x.body), key(x.orelse), key(y)
+                    if ka and kb and k and ka != kb and k in (ka, kb):
+                        positive = isinstance(n.ops[0], (ast.Is, ast.Eq)) == (k == ka)
+                        new = x.test if positive else ast.UnaryOp(op=ast.Not(), operand=x.test)
+                        count[0] += 1
+                        return ast.copy_location(new, n)
+            return n
+    R().visit(tree)
+    if count[0]:
+        ast.fix_missing_locations(tree)
+    return count[0]
